@@ -74,7 +74,7 @@ def run_behaviour(fx, np, bid, h, variant=0):
     for i, a in enumerate(h, 1):
         act = a['act']
         raised, err, cont_ok = False, '', True
-        tgt = a.get('x') if act in ('New', 'Store', 'SetItem', 'Resize', 'Reset', 'SetCfg', 'SetCfgBad', 'Assign', 'Drop') else \
+        tgt = a.get('x') if act in ('New', 'Store', 'SetItem', 'SetItemFxp', 'Resize', 'Reset', 'SetCfg', 'SetCfgBad', 'Assign', 'Drop') else \
             a.get('z') if act == 'BinOpOut' else \
             (a.get('y') if act in ('GetItem', 'CtorLike', 'Like', 'LikeShallow', 'CopyShallow', 'DeepCopy', 'RShiftKeep', 'Invert') else a.get('z'))
         for r in rec.values():
@@ -101,6 +101,8 @@ def run_behaviour(fx, np, bid, h, variant=0):
             elif act == 'SetItem':
                 o = heap[a['x']]
                 o[a['j'] - 1] = val(a['k4'], common.fmt_dict(o))
+            elif act == 'SetItemFxp':
+                heap[a['x']][a['j'] - 1:a['j']] = heap[a['y']]          # a one-element object into a one-element slice
             elif act == 'GetItem':
                 src = heap[a['x']]
                 adopt(a['y'], src[a['j'] - 1:a['j']] if a['sel'] == 'one' else (src[::-1] if a['sel'] == 'rev' else src[:]))
@@ -189,7 +191,7 @@ def run_behaviour(fx, np, bid, h, variant=0):
         except Exception as ex:
             obs = {n: {'null': True} for n in NAMES}
             raised, err = True, 'projection:' + type(ex).__name__ + ':' + str(ex)[:80]
-        cb = list(rec[tgt].ev) if (tgt in rec and rec[tgt] is not None and act in ('Store', 'SetItem')) else []
+        cb = list(rec[tgt].ev) if (tgt in rec and rec[tgt] is not None and act in ('Store', 'SetItem', 'SetItemFxp')) else []
         rows.append({'k': 'sys', 'b': bid, 'i': i, 'a': a, 'obs': obs, 'cb': cb, 'raised': bool(raised), 'err': err, 'cont': bool(cont_ok),
                      'route': act, 'carrier': 'heap'})
         if raised and act != 'SetCfgBad':
